@@ -92,6 +92,14 @@ def check_ast(ast):
     except Exception as e:  # noqa: BLE001
         bshape = ("raises", type(e).__name__)
     if got == want and got_p == bshape:
+        # the same under one-letter variable names (the V flag), for programs whose variable names have <= 1 letter
+        if all(len(n[1]) <= 1 for n, _ in progs.walk(ast) if n[0] in ("get", "set")):
+            try:
+                got_v = progs.repo_shape(progs.parse_text(text, True), parents=False)
+            except Exception as e:  # noqa: BLE001
+                got_v = ("raises", type(e).__name__)
+            if got_v != want:
+                return ("C03:V-flag:grouping", f"program {text!r} lexed with variables_as_digraphs=True: grouping differs from the model; got {got_v!r}, predicted {want!r}")
         return None
     # attribute: which literal, made benign alone, restores the shape?
     culprit = None
